@@ -77,7 +77,16 @@ type Sess struct {
 	ZeroConfigs bool
 	// called before every step of a simulated process (foreign edits between calls)
 	BeforeStep func(o Op)
+	// Sub: the snapshot directory is Root/Sub and does not exist until a call creates it
+	// (may contain `%`); "" = Root itself, which exists
+	Sub string
 }
+
+// Dir is the directory handed to snaps.Dir.
+func (s *Sess) Dir() string { return filepath.Join(s.Root, s.Sub) }
+
+// SubDirs are the not-yet-existing snapshot directories sessions are given.
+var SubDirs = []string{"nested/snaps", "coverage 100%/__snapshots__", "r%d/%s", "a"}
 
 // ForeignEditStandalone replaces the bytes of an existing standalone file behind the
 // library's back (another tool, a hand edit, a checkout) and mirrors it in the model.
@@ -155,7 +164,7 @@ func (s *Sess) config(o Op) *snaps.Config {
 }
 
 func (s *Sess) buildConfig(o Op) *snaps.Config {
-	opts := []func(*snaps.Config){snaps.Dir(s.Root)}
+	opts := []func(*snaps.Config){snaps.Dir(s.Dir())}
 	if o.File != "" {
 		opts = append(opts, snaps.Filename(o.File))
 	}
@@ -181,7 +190,7 @@ func (s *Sess) MultiPath(o Op) string {
 	if base == "" {
 		base = defaultBase
 	}
-	return filepath.Join(s.Root, base+".snap"+o.Ext)
+	return filepath.Join(s.Dir(), base+".snap"+o.Ext)
 }
 
 // StandalonePath is the C11 location of the k-th standalone call.
@@ -194,7 +203,7 @@ func (s *Sess) StandalonePath(o Op, k int) string {
 	if o.API == "sjson" && ext == "" {
 		ext = ".json"
 	}
-	return filepath.Join(s.Root, fmt.Sprintf("%s_%d.snap%s", base, k, ext))
+	return filepath.Join(s.Dir(), fmt.Sprintf("%s_%d.snap%s", base, k, ext))
 }
 
 var defaultJSONOpts = &tpretty.Options{SortKeys: true, Indent: " "}
@@ -498,7 +507,13 @@ func (s *Sess) Step(t *vkit.T, o Op, m vkit.Mode) StepResult {
 		f := strings.SplitN(d, " ", 2)
 		what, p := f[0], f[1]
 		if e, ok := d1[p]; ok && e.Type == "d" {
-			continue // directory mtimes move when a file is created in them
+			// directory mtimes move when a file is created in them; a NEW directory is a write
+			// like any other: only a call that stores something may create the directories
+			// leading to its file
+			if _, was := d0[p]; !was && !(mutating && strings.HasPrefix(rel, strings.TrimSuffix(p, "/")+"/")) {
+				add("directory-created", "", fmt.Sprintf("%s after %s %s k=%d (expected outcome %s, file %s)", d, o.API, o.Test, k, res.Expected, rel))
+			}
+			continue
 		}
 		if e, ok := d0[p]; ok && e.Type == "d" {
 			continue
